@@ -83,30 +83,57 @@ type BurstSpec struct {
 	// when they have returned and the plan has finished, or after HoldMs, whichever comes first; then one more
 	// Start is made. b_starts = B, the others, the last one.
 	HeldRead bool `json:"held_read,omitempty"`
-	HoldMs   int  `json:"hold_ms,omitempty"`
+	// FailingHolder: Start A sits in a held Read (so it holds whatever lock Start takes); Start B is made and
+	// queues behind it; A's context is cancelled and its Read fails, so A returns an error having registered
+	// nothing; B goes on and is held in ITS Read; Start C is made; B is released when C has returned or after
+	// HoldMs; then one more Start. b_starts = A, B, C, the last one.
+	FailingHolder bool `json:"failing_holder,omitempty"`
+	HoldMs        int  `json:"hold_ms,omitempty"`
 }
 
-// heldVault is a storage.Vault (the unexported marker method is promoted from the embedded value) whose Read
-// of an armed id is answered at once but delivered, once, only when release is called (a slow store).
+// heldVault is a storage.Vault (the unexported marker method is promoted from the embedded value) in which the
+// next Reads of an id can be held: the store answers at once, but the answer is delivered only when the hold
+// is released (a slow store) - or, for a failing hold, an error is delivered instead (the caller's context
+// error if it has one by then).
+type hold struct {
+	held    chan struct{} // closed when a Read sits in this hold
+	release chan struct{}
+	fail    bool
+}
+
+func newHold(fail bool) *hold {
+	return &hold{held: make(chan struct{}), release: make(chan struct{}), fail: fail}
+}
+
 type heldVault struct {
 	storage.Vault
-	mu      sync.Mutex
-	armed   map[uuid.UUID]bool
-	held    chan struct{}
-	release chan struct{}
+	mu    sync.Mutex
+	holds map[uuid.UUID][]*hold // consumed in order by successive Reads of the id
+}
+
+func (h *heldVault) push(id uuid.UUID, hs ...*hold) {
+	h.mu.Lock()
+	h.holds[id] = append(h.holds[id], hs...)
+	h.mu.Unlock()
 }
 
 func (h *heldVault) Read(ctx context.Context, id uuid.UUID) (*workflow.Plan, error) {
 	h.mu.Lock()
-	hold := h.armed[id]
-	if hold {
-		delete(h.armed, id)
+	var hd *hold
+	if q := h.holds[id]; len(q) > 0 {
+		hd, h.holds[id] = q[0], q[1:]
 	}
 	h.mu.Unlock()
 	p, err := h.Vault.Read(ctx, id) // the store answers now ...
-	if hold {
-		close(h.held)
-		<-h.release // ... but the answer reaches the caller late
+	if hd != nil {
+		close(hd.held)
+		<-hd.release // ... but the answer reaches the caller late
+		if hd.fail {
+			if ctx.Err() != nil {
+				return nil, ctx.Err()
+			}
+			return nil, fmt.Errorf("injected read failure")
+		}
 	}
 	return p, err
 }
@@ -504,8 +531,8 @@ func newWorld(spec *Spec) (*world, error) {
 		opts = append(opts, coercion.WithMaxSubmit(time.Duration(spec.MaxMs)*time.Millisecond))
 	}
 	var store storage.Vault = v
-	if spec.Burst != nil && spec.Burst.HeldRead {
-		w.hv = &heldVault{Vault: v, armed: map[uuid.UUID]bool{}, held: make(chan struct{}), release: make(chan struct{})}
+	if spec.Burst != nil && (spec.Burst.HeldRead || spec.Burst.FailingHolder) {
+		w.hv = &heldVault{Vault: v, holds: map[uuid.UUID][]*hold{}}
 		store = w.hv
 	}
 	ws, err := coercion.New(ctx, w.set.Reg, store, opts...)
@@ -586,19 +613,70 @@ func childMain() {
 			id = rec.id
 		}
 		burstStartable := b.Target != nil && (b.ViaAPI || specStartable(b.Target, spec.MaxMs, modelNow))
+		if b.FailingHolder {
+			say("READY")
+			say("B 0")
+			h1, h2 := newHold(true), newHold(false)
+			w.hv.push(id, h1, h2)
+			starts := make([]string, 4)
+			ctxA, cancelA := context.WithCancel(context.Background())
+			var wgA, wgB, wgC sync.WaitGroup
+			wgA.Add(1)
+			go func() { defer wgA.Done(); starts[0] = errClass(w.ws.Start(ctxA, id)) }()
+			select {
+			case <-h1.held: // A is inside store.Read, holding the lock
+			case <-time.After(5 * time.Second):
+			}
+			wgB.Add(1)
+			go func() { defer wgB.Done(); starts[1] = errClass(w.ws.Start(context.Background(), id)) }()
+			time.Sleep(40 * time.Millisecond) // B is now waiting for the lock A holds
+			cancelA()
+			close(h1.release)
+			wgA.Wait()
+			select {
+			case <-h2.held: // B has the lock, has passed the waiter check and sits in its Read
+			case <-time.After(2 * time.Second):
+			}
+			cDone := make(chan struct{})
+			wgC.Add(1)
+			go func() { defer wgC.Done(); starts[2] = errClass(w.ws.Start(context.Background(), id)); close(cDone) }()
+			select {
+			case <-cDone:
+			case <-time.After(time.Duration(b.HoldMs) * time.Millisecond):
+			}
+			close(h2.release)
+			wgB.Wait()
+			wgC.Wait()
+			cancelA()
+			say("S %s", strings.Join(starts[:3], ","))
+			ctx, cancel := context.WithTimeout(context.Background(), 20*time.Second)
+			p, err := w.ws.Wait(ctx, id)
+			final := planClass(p, err)
+			cancel()
+			starts[3] = errClass(w.ws.Start(context.Background(), id))
+			say("E 0 burst")
+			say("OPSDONE")
+			time.Sleep(grace)
+			ex := 0
+			if rec != nil {
+				ex = rec.maxCalls()
+			}
+			say("R %s||%d|%s", strings.Join(starts, ","), ex, final)
+			say("DONE")
+			return
+		}
 		if b.HeldRead {
 			say("READY")
 			say("B 0")
-			w.hv.mu.Lock()
-			w.hv.armed[id] = true
-			w.hv.mu.Unlock()
+			h1 := newHold(false)
+			w.hv.push(id, h1)
 			n := b.Starts
 			starts := make([]string, n+1)
 			var wgB, wgA sync.WaitGroup
 			wgB.Add(1)
 			go func() { defer wgB.Done(); starts[0] = errClass(w.ws.Start(context.Background(), id)) }()
 			select {
-			case <-w.hv.held: // B is inside store.Read
+			case <-h1.held: // B is inside store.Read
 			case <-time.After(5 * time.Second):
 			}
 			aDone := make(chan struct{})
@@ -628,7 +706,7 @@ func childMain() {
 					}
 				}
 			}
-			close(w.hv.release)
+			close(h1.release)
 			wgB.Wait()
 			wgA.Wait()
 			say("S %s", strings.Join(starts[:n], ","))
@@ -1126,6 +1204,10 @@ func genStale(root *core.Rand, i int) *Spec {
 	r := root.Fork(uint64(i) + 2_000_000)
 	s := &Spec{Kind: "burst", Index: i, Seed: core.Seed(), MaxMs: defaultMax, GraceMs: 80, ShortMs: 200, StatusMs: 2, IdleMs: 3000, Family: "stale"}
 	b := &BurstSpec{Starts: 1 + r.Range(1, 3), GateOpen: true, HeldRead: true, HoldMs: 300}
+	if i%2 == 1 {
+		b.HeldRead, b.FailingHolder, b.Starts = false, true, 4
+		s.Family = "holder"
+	}
 	kinds := preKinds(s.MaxMs)
 	ps := kinds[r.Intn(3)]
 	b.Target = &ps
@@ -1282,6 +1364,10 @@ func burstCase(s *Spec, o childOut) core.Case {
 		what = "held-read/" + what
 		idp = "stale"
 	}
+	if b.FailingHolder {
+		what = "failing-holder/" + what
+		idp = "holder"
+	}
 	term := core.Sprintf("(CBurst {| b_max := %s; b_now := %s; b_pl := %s; b_starts := %s; b_others := %s; b_execs := %d; b_final := %s |})",
 		core.Z(s.MaxMs), core.Z(modelNow), plt, tl(starts), tl(others), execs, rterm(final))
 	sorted := append([]string{}, starts...)
@@ -1301,7 +1387,7 @@ func main() {
 	child := flag.Bool("child", false, "run one spec read from stdin")
 	n := flag.Int("n", 300, "number of sequential histories")
 	nb := flag.Int("bursts", 80, "number of concurrent bursts")
-	ns := flag.Int("stale", 10, "number of held-read cases (one Start sits in store.Read while others run)")
+	ns := flag.Int("stale", 10, "number of held-read / failing-holder cases (Starts made while another Start sits in store.Read)")
 	nt := flag.Int("ticks", 4, "number of histories in which time really passes (maxSubmit 6 s)")
 	maxLen := flag.Int("maxlen", 12, "maximum number of calls of a history (before the quiescing calls)")
 	par := flag.Int("par", 12, "children running at the same time")
